@@ -24,6 +24,7 @@ import Mathlib.Algebra.Order.Floor.Ring
 import Mathlib.Data.Rat.Floor
 
 set_option linter.unusedSectionVars false
+set_option linter.unusedSimpArgs false
 namespace DV.C17
 open Nat
 
@@ -74,7 +75,7 @@ theorem gt_def (s : Style) (a b e : K) : gtS s a b e = true ↔ (b < a ∧ eqS s
 /-- documented: `le = eq || first < second`, `ge = eq || first > second` -/
 theorem le_def (s : Style) (a b e : K) : leS s a b e = true ↔ (a < b ∨ eqS s a b e = true) := leS_iff s a b e
 theorem ge_def (s : Style) (a b e : K) : geS s a b e = true ↔ (b < a ∨ eqS s a b e = true) := by
-  simp [geS, Gen.ge]
+  simp [geS, Gen.ge, or_comm]
 
 /-- exactly one of less / equal / greater holds (non-negative epsilon) -/
 theorem trichotomy (s : Style) (a b e : K) (h : 0 ≤ e) :
